@@ -18,21 +18,35 @@ pub struct SolveRec {
     pub stale_delayed_table: bool,
 }
 
-/// F11's root-cause condition, observed through hook H4 after a solve of `goal` that lost an answer. Refinement strands
-/// (the only thing that ever discharges the delayed subgoals of a conditional answer) are created for the root of an
-/// *active* search only, so a table that has completed while all its answers were still conditional stays that way:
-/// (W) the table of `goal` itself is such a table (coinductive, no strands left, every answer conditional) — typical for
-///     a solver that answered other goals before; or
-/// (M) some coinductive table is such a table and one of the goals its answers are conditional on belongs to another
-///     completed table without an unconditional answer (mutually conditional answers: nothing can discharge them).
-/// A lost answer without (W) or (M) is not attributed to F11.
-pub fn slg_stale_table(s: &mut chalk_engine::solve::SLGSolver<I>, goal: &UGoal) -> bool {
+/// F11's root-cause condition, observed through hook H4. Refinement strands (the only thing that ever discharges the
+/// delayed subgoals of a conditional answer) are created for the root of an *active* search only, so a table that has
+/// completed while all its answers were still conditional stays that way. Two observable forms:
+///
+/// (W) read *before* a solve on a solver that has answered other goals: the table of `goal` itself already exists, has no
+///     strands left and every answer it holds is conditional — this solve can only repeat that;
+/// (M) read *after* a solve: some coinductive table is complete with only conditional answers and one of the goals they
+///     are conditional on belongs to another complete table without an unconditional answer (mutually conditional
+///     answers: nothing can discharge them).
+///
+/// A lost answer with neither (W) before nor (M) after is not attributed to F11.
+pub fn slg_goal_table_stale(s: &mut chalk_engine::solve::SLGSolver<I>, goal: &UGoal) -> bool {
+    let g = format!("{:?}", goal);
+    s.verif_tables().iter().any(|x| x.goal == g && x.strands == 0 && x.answers > 0 && x.answers_with_delayed_subgoals == x.answers)
+}
+
+/// F33's root-cause condition (hook H4): the table of `goal` is complete, and it holds more conditional answers than
+/// unconditional ones — a conditional root answer whose refinement strand never ran. (In a search that is not
+/// disturbed, every conditional root answer gets a refinement strand in the same step that publishes it.)
+pub fn slg_unrefined_root_answer(s: &mut chalk_engine::solve::SLGSolver<I>, goal: &UGoal) -> bool {
+    let g = format!("{:?}", goal);
+    s.verif_tables().iter().any(|x| x.goal == g && x.strands == 0 && x.answers_with_delayed_subgoals > x.answers - x.answers_with_delayed_subgoals)
+}
+
+/// Form (M) of the F11 evidence, see `slg_goal_table_stale`.
+pub fn slg_stale_table(s: &mut chalk_engine::solve::SLGSolver<I>, _goal: &UGoal) -> bool {
     let t = s.verif_tables();
     let only_cond = |x: &chalk_engine::verif::TableDump| x.strands == 0 && x.answers_with_delayed_subgoals == x.answers;
-    let g = format!("{:?}", goal);
-    let w = t.iter().any(|x| x.goal == g && x.coinductive && x.answers > 0 && only_cond(x));
-    let m = t.iter().enumerate().any(|(i, x)| x.coinductive && x.answers > 0 && only_cond(x) && x.delayed_goals.iter().any(|d| t.iter().enumerate().any(|(j, y)| i != j && y.goal_body == *d && only_cond(y))));
-    w || m
+    t.iter().enumerate().any(|(i, x)| x.coinductive && x.answers > 0 && only_cond(x) && x.delayed_goals.iter().any(|d| t.iter().enumerate().any(|(j, y)| i != j && y.goal_body == *d && only_cond(y))))
 }
 
 /// F12's root-cause condition, observed through hook H5: some table holds the complete trivial answer that makes the
@@ -49,6 +63,28 @@ pub fn nonlinear_definite(shown: &str) -> bool {
     if !shown.starts_with("Ambiguous; definite substitution") {
         return false;
     }
+    let mut seen = std::collections::BTreeSet::new();
+    let b = shown.as_bytes();
+    let mut i = 0;
+    while i + 1 < b.len() {
+        if b[i] == b'^' {
+            let mut j = i + 1;
+            while j < b.len() && (b[j].is_ascii_digit() || b[j] == b'.') {
+                j += 1;
+            }
+            if !seen.insert(shown[i..j].to_string()) {
+                return true;
+            }
+            i = j;
+        } else {
+            i += 1;
+        }
+    }
+    false
+}
+
+/// Does the displayed substitution mention one canonical variable (`^d.i`) twice?
+fn repeats_var(shown: &str) -> bool {
     let mut seen = std::collections::BTreeSet::new();
     let b = shown.as_bytes();
     let mut i = 0;
@@ -111,6 +147,12 @@ pub fn slg_order_signature(a: &str, a_subsumed: bool, b: &str, b_subsumed: bool)
     if (same_subst(a, b) && b_subsumed) || (same_subst(b, a) && a_subsumed) {
         return Some("slg:trivial-answer-green-cut-order");
     }
+    // ... and when S repeats a variable, anti-unifying S with its own instances loses the sharing, the result is trivial
+    // and the Ambiguous side shows "no inference guidance" instead
+    let nonlinear_unique_vs_unknown = |u: &str, d: &str| d == "Ambiguous; no inference guidance" && unique_parts(u).map_or(false, |(_, sub)| repeats_var(&sub));
+    if (nonlinear_unique_vs_unknown(a, b) && b_subsumed) || (nonlinear_unique_vs_unknown(b, a) && a_subsumed) {
+        return Some("slg:trivial-answer-green-cut-order");
+    }
     if nonlinear_definite(a) || nonlinear_definite(b) {
         // F20: guidance with a repeated variable is declared final before an invalidating answer is seen
         return Some("slg:may-invalidate-nonlinear-guidance");
@@ -125,6 +167,15 @@ pub fn fresh_slg_subsumed(l: &Loaded, goal: &UGoal) -> bool {
     let mut s = chalk_engine::solve::SLGSolver::<I>::new(10, None);
     let _ = solve(&mut s, &db, goal);
     slg_subsumed_answers(&mut s)
+}
+
+/// Form (M) of the F11 evidence for a fresh SLG solve of `goal` (used when it is the *fresh* answer that was lost).
+pub fn fresh_slg_stale(l: &Loaded, goal: &UGoal) -> bool {
+    let db = FaultDb::new(&*l.program, "slg");
+    db.budget.set(300_000);
+    let mut s = chalk_engine::solve::SLGSolver::<I>::new(10, None);
+    let _ = solve(&mut s, &db, goal);
+    slg_stale_table(&mut s, goal)
 }
 
 /// Fresh solver + fresh FaultDb, one `solve`, answer translated to the model's vocabulary.
